@@ -279,6 +279,20 @@ def update (s : State) (js : List Join) (leaves : List Nat) (choice : List Int) 
   | .ok => if js.isEmpty then (r1.1, .ok) else batchAdd r1.1 js choice
   | e => (r1.1, e)
 
+/-- the `JoinPlayers` half of `CreateTable` (`s` is the table just created): the players are added as by a batch join; an
+MTT table created with players is `balancing` — unless it was created on a break, which stays `pausing`.  (`CreateTable`
+refuses more players than seats before anything else; the harness never sends that, it is not modelled.) -/
+def createJoin (s : State) (js : List Join) (choice : List Int) : State × Res :=
+  if js.isEmpty then (s, .ok) else
+  let r := batchAdd s js choice
+  match r.2 with
+  | .ok => (if s.cfg.mode == .mtt && r.1.status != .pausing then { r.1 with status := .balancing } else r.1, .ok)
+  | e => (r.1, e)
+
+/-- `CreateTable` with players -/
+def createWith (cfg : Meta) (blind : Blind) (js : List Join) (choice : List Int) : State × Res :=
+  createJoin (create cfg blind) js choice
+
 -- ---------------------------------------------------------------- open-game gate (bookkeeping only; C09 owns its dynamics)
 
 def setup (s : State) (gc : Nat) (parts : List (Nat × Nat)) : State :=
@@ -591,6 +605,8 @@ inductive Event
   | retry (choice : Option Int) (createOk : Bool)     -- a turn of the retry loop after a refused open
   | settle (result : List (Nat × Int))               -- the backend closed the hand with this result
   | continue (expired : Bool)                         -- continueGame and its delayed handler
+  | contReset                                         -- continueGame up to arming the timer (GameContinueInterval > 0) …
+  | tick (expired : Bool)                             -- … and the delayed handler, when the timer fires
 
 def step (s : State) : Event → State
   | .reserve j ch => (reserve s j ch).1
@@ -610,6 +626,10 @@ def step (s : State) : Event → State
   | .retry ch ok => (retryOpen s ch ok).1
   | .settle r => (settle s r).1
   | .continue e => (continueGame s e).1
+  -- with a continue interval the two halves are separate happenings and calls may land in between.  The first half is
+  -- `continueGame` whose handler finds nothing to do (`nextMove _ true` is the identity); the second is the handler
+  | .contReset => (continueGame s true).1
+  | .tick e => (nextMove s e).1
 
 def run (s : State) (evs : List Event) : State := evs.foldl step s
 
